@@ -59,9 +59,9 @@ Lemma wsum_colsum d : forall rows P, Forall (fun r => length r = length d) rows 
   wsum d (colsum rows P) 0 = dotZ P (map (fun r => dotZ r d) rows).
 Proof.
   induction rows as [|r rows IH]; intros P Hr LP.
-  - destruct P; [|discriminate]. simpl. rewrite (wsum_ext _ _ (fun _ => 0)) by (intros; reflexivity). apply wsum_zero.
+  - destruct P; [|discriminate]. simpl. transitivity (wsum d (fun _ => 0) 0); [apply wsum_ext; intros; reflexivity | apply wsum_zero].
   - destruct P as [|p0 P]; [discriminate|]. inversion Hr; subst.
-    rewrite (wsum_ext _ _ (fun j => p0 * (fun j => nth j r 0) j + colsum rows P j)) by (intros; reflexivity).
+    transitivity (wsum d (fun j => p0 * (fun j => nth j r 0) j + colsum rows P j) 0); [apply wsum_ext; intros; reflexivity|].
     rewrite wsum_lin, IH by (auto; simpl in LP; lia).
     rewrite wsum_nth by (simpl; lia). simpl. reflexivity.
 Qed.
@@ -220,9 +220,9 @@ Proof.
       destruct (push_cond A basis product tzero t F i) eqn:Epc; cbn [fst snd].
       * right. split.
         -- split; [exact Hts|]. cbn [fst snd]. intros j Hj.
-           rewrite nth_set_nth in Hj. destruct (Nat.eqb_spec j i) as [->|N]; cbn [andb] in Hj.
-           ++ exact Ei.
-           ++ apply Cf. exact Hj.
+           destruct (Nat.eq_dec j i) as [E|N].
+           ++ subst j. exact Ei.
+           ++ rewrite nth_set_nth_neq in Hj by exact N. apply Cf. exact Hj.
         -- intros j Hj Hjs. destruct (Nat.eq_dec j i) as [->|N]; [lia|apply Hno; [lia|exact Hjs]].
       * right. split; [split; [exact Hts|exact Cf]|].
         intros j Hj Hjs. destruct (Nat.eq_dec j i) as [->|N]; [lia|apply Hno; [lia|exact Hjs]].
@@ -259,7 +259,71 @@ Proof.
         destruct (Nat.ltb_spec j (m_q A)).
         + destruct Hts as [_ Hle]. specialize (Hle j). specialize (H j). lia.
         + rewrite !nth_overflow by lia. reflexivity. }
-    destruct Ex as [j [Hj Hlt]]. destruct (Hno j Hj Hlt) as [_ H]. unfold tzero in H. congruence.
+    destruct Ex as [j [Hj Hlt]]. destruct (Hno j Hj Hlt) as [_ H]. rewrite H in Ez. discriminate.
 Qed.
 
 End ForLoopC.
+
+(* ---------- one iteration of the while loop ---------- *)
+Lemma astep_cinv A Zs basis Z' b' s : wf_mat A -> ainv A Zs basis -> minimal_solution A s ->
+  cinv s Zs basis -> astep A Zs basis = Some (Z', b') -> cinv s Z' b'.
+Proof.
+  intros Hwf [[Ce Cn _ _] Hs _] Hmin C E.
+  destruct Zs as [|[t Fr] Z1]; [discriminate|]. unfold astep in E.
+  inversion Ce as [|? ? [Lt LFr] Ce1]; subst. cbn [fst snd] in Lt, LFr.
+  assert (Nt : nonneg t) by (apply (Cn (t, Fr)); left; reflexivity).
+  destruct (all_zero (prod_of A t) && negb (vec_eqb t (vec_zero (m_q A)))) eqn:Ebr.
+  - inversion E; subst Z' b'. clear E.
+    destruct C as [C|[e [[<-|He] Ce']]].
+    + left. apply in_or_app. left. exact C.
+    + (* the popped vector is a solution below s: it is s *)
+      left. apply in_or_app. right. left.
+      destruct Ce' as [Lts _]. cbn [fst] in Lts.
+      apply Bool.andb_true_iff in Ebr. destruct Ebr as [Ez Enz].
+      destruct Hmin as [_ Hm]. apply Hm; [|exact Lts].
+      split; [exact Lt|]. split; [exact Nt|]. split.
+      * intros Eq. rewrite Eq in Enz.
+        assert (H : vec_eqb (vec_zero (m_q A)) (vec_zero (m_q A)) = true) by (apply vec_eqb_spec; reflexivity).
+        rewrite H in Enz. discriminate.
+      * apply all_zero_map_solves. exact Ez.
+    + right. exists e. split; [exact He|exact Ce'].
+  - inversion E; subst Z' b'. clear E.
+    destruct C as [C|[e [[<-|He] Ce']]].
+    + left. exact C.
+    + right. destruct Ce' as [Lts Cf]. cbn [fst snd] in Lts, Cf.
+      assert (Nts : t <> s).
+      { intros ->. destruct Hmin as [[Ls [Ns [Nzs Ss]]] _].
+        rewrite (solves_all_zero _ _ Ss) in Ebr. cbn [andb] in Ebr.
+        apply Bool.negb_false_iff in Ebr. apply vec_eqb_spec in Ebr. contradiction. }
+      assert (C0 : cfor A t s 0 Fr Z1).
+      { right. split; [split; [exact Lts|exact Cf]|]. intros j Hj. lia. }
+      pose proof (afor_cfor A basis t s Lt Hmin Hs Lts (m_q A) 0%nat Fr Z1 ltac:(lia) LFr C0) as C1.
+      exact (cfor_end A t s Hwf Lt Hmin Lts _ _ Nts Ebr C1).
+    + right. exists e. split; [apply afor_incl; exact He|exact Ce'].
+Qed.
+
+Lemma aloop_cinv A s : wf_mat A -> minimal_solution A s ->
+  forall fuel Zs basis B, ainv A Zs basis -> cinv s Zs basis -> aloop fuel A Zs basis = Ok B -> In s B.
+Proof.
+  intros Hwf Hmin. induction fuel as [|f IH]; intros Zs basis B I C E; [discriminate|].
+  cbn [aloop] in E. destruct (astep A Zs basis) as [[Z' b']|] eqn:Es.
+  - eapply IH; [| |exact E].
+    + eapply astep_ainv; eauto.
+    + eapply astep_cinv; eauto.
+  - inversion E; subst. destruct Zs as [|[t Fr] Z1].
+    + destruct C as [C|[e [[] _]]]. exact C.
+    + unfold astep in Es. destruct (all_zero (prod_of A t) && negb (vec_eqb t (vec_zero (m_q A)))); discriminate.
+Qed.
+
+(* every minimal solution is returned *)
+Theorem lde_complete A fuel B : wf_mat A -> homogeneous_lde fuel A = Ok B ->
+  forall s, minimal_solution A s -> In s B.
+Proof.
+  intros Hwf E s Hmin. unfold homogeneous_lde in E. rewrite lde_refines in E by (auto; constructor).
+  apply (aloop_cinv A s Hwf Hmin fuel _ _ B (ainv_start A)); [|exact E].
+  right. exists (vec_zero (m_q A), repeat false (m_q A)). split; [left; reflexivity|].
+  destruct Hmin as [[Ls [Ns _]] _]. split; cbn [fst snd].
+  - apply le_vec_zero; assumption.
+  - intros j Hj. exfalso. clear -Hj. revert j Hj. induction (m_q A); intros [|j] Hj; simpl in Hj; try discriminate. eauto.
+Qed.
+
